@@ -1,0 +1,79 @@
+//go:build verif
+
+// Contracts for the verification machinery under /verif (contract-based deductive
+// verification). This file is comment-only, is excluded from every normal build by the
+// "verif" build tag, and declares nothing. See /verif/DESIGN.md §4.
+
+package impl
+
+//@ func Not(ctx, input, args) (res, err)
+//@   ensures len(args) != 0 ==> is(err, ErrWrongArity)
+//@   ensures len(args) == 0 && tvC(input) == TV_ERR ==> err != nil
+//@   ensures len(args) == 0 && tvC(input) != TV_ERR ==> err == nil && collTV(res) == notT(tvC(input))
+//@   assigns nothing
+//
+// where(criteria): exactly the order-preserving sub-collection of the items for which the
+// criterion is true (C10); the criterion follows the singleton rule (C06): an item is kept
+// iff its criterion is T, a multi-item criterion or an evaluation error is an error.
+//@ func Where(ctx, input, args) (res, err)
+//@   requires ctx != nil
+//@   requires forall k int :: 0 <= k && k < len(args) ==> args[k] != nil
+//@   let K = ctx.ExternalConstants
+//@   let N = ctx.Now
+//@   let e = args[0]
+//@   ensures len(args) != 1 ==> is(err, ErrWrongArity)
+//@   ensures len(args) == 1 ==> ((err != nil) == (exists k int :: 0 <= k && k < len(input) && critTV(e, K, N, input[k]) == TV_ERR))
+//@   ensures err == nil ==> len(res) == filtLen(e, K, N, input, len(input))
+//@   ensures err == nil ==> forall k int :: 0 <= k && k < len(input) && keepW(e, K, N, input[k]) ==> res[filtLen(e, K, N, input, k)] == input[k]
+//@   loop 1 (i):
+//@     invariant 0 <= i && i <= len(input)
+//@     invariant own(result)
+//@     invariant len(result) == filtLen(e, K, N, input, i)
+//@     invariant forall k int :: 0 <= k && k < i ==> critTV(e, K, N, input[k]) != TV_ERR
+//@     invariant forall k int :: 0 <= k && k < i && keepW(e, K, N, input[k]) ==> filtLen(e, K, N, input, k) < len(result) && result[filtLen(e, K, N, input, k)] == input[k]
+//@   assigns nothing
+//
+// all(criteria): true iff the criterion is true for every item (C10); singleton rule (C06).
+//@ func All(ctx, input, args) (res, err)
+//@   requires ctx != nil
+//@   requires forall k int :: 0 <= k && k < len(args) ==> args[k] != nil
+//@   let K = ctx.ExternalConstants
+//@   let N = ctx.Now
+//@   let e = args[0]
+//@   ensures len(input) == 0 ==> err == nil && collTV(res) == TV_T
+//@   ensures len(input) > 0 && len(args) != 1 ==> is(err, ErrWrongArity)
+//@   ensures len(input) > 0 && len(args) == 1 && (forall k int :: 0 <= k && k < len(input) ==> critTV(e, K, N, input[k]) != TV_ERR) ==> err == nil
+//@   ensures len(args) == 1 && err == nil ==> (collTV(res) == TV_T || collTV(res) == TV_F)
+//@   ensures len(args) == 1 && err == nil ==> ((collTV(res) == TV_T) == (forall k int :: 0 <= k && k < len(input) ==> critTV(e, K, N, input[k]) == TV_T))
+//@   loop 1 (i):
+//@     invariant 0 <= i && i <= len(input)
+//@     invariant forall k int :: 0 <= k && k < i ==> critTV(e, K, N, input[k]) == TV_T
+//@   assigns nothing
+//
+// exists(criteria) == where(criteria).exists()
+//@ func Exists(ctx, input, args) (res, err)
+//@   requires ctx != nil
+//@   requires forall k int :: 0 <= k && k < len(args) ==> args[k] != nil
+//@   let K = ctx.ExternalConstants
+//@   let N = ctx.Now
+//@   let e = args[0]
+//@   ensures len(args) == 0 ==> err == nil && collTV(res) == ite(len(input) > 0, TV_T, TV_F)
+//@   ensures len(args) > 1 ==> is(err, ErrWrongArity)
+//@   ensures len(args) == 1 ==> ((err != nil) == (exists k int :: 0 <= k && k < len(input) && critTV(e, K, N, input[k]) == TV_ERR))
+//@   ensures len(args) == 1 && err == nil ==> collTV(res) == ite(filtLen(e, K, N, input, len(input)) > 0, TV_T, TV_F)
+//@   assigns nothing
+//
+// iif(criterion, true-result [, otherwise-result]) with the singleton rule on the criterion
+//@ func Iif(ctx, input, args) (res, err)
+//@   requires ctx != nil
+//@   requires forall k int :: 0 <= k && k < len(args) ==> args[k] != nil
+//@   let K = ctx.ExternalConstants
+//@   let N = ctx.Now
+//@   let c = evalRes(args[0], K, N, input)
+//@   let cerr = evalErr(args[0], K, N, input)
+//@   ensures len(args) < 2 || len(args) > 3 ==> is(err, ErrWrongArity)
+//@   ensures (len(args) == 2 || len(args) == 3) && (cerr != nil || tvC(c) == TV_ERR) ==> err != nil
+//@   ensures (len(args) == 2 || len(args) == 3) && cerr == nil && tvC(c) == TV_T ==> res == evalRes(args[1], K, N, input) && err == evalErr(args[1], K, N, input)
+//@   ensures len(args) == 3 && cerr == nil && (tvC(c) == TV_F || tvC(c) == TV_U) ==> res == evalRes(args[2], K, N, input) && err == evalErr(args[2], K, N, input)
+//@   ensures len(args) == 2 && cerr == nil && (tvC(c) == TV_F || tvC(c) == TV_U) ==> err == nil && len(res) == 0
+//@   assigns nothing
